@@ -163,10 +163,35 @@ pub fn judge(rep: &mut Reporter, m: &Manifest, reg: &Registry, p: &P25, h: &Hist
     nviol
 }
 
+/// The front end accepted the program but rustc rejects the generated code. If the error is about a generated
+/// handoff / singleton buffer that is not in scope, a closure holding a reference was scheduled before the state
+/// it refers to is produced (the buffer is declared by the producing subgraph): the compile-time face of reading
+/// unsettled state. Anything else is a defect of the generator's own user code.
+fn compile_failure(rep: &mut Reporter, m: &Manifest, p: &P25, msg: &str) {
+    let generated = ["cannot find value `hoff_", "cannot find value `singleton_"].iter().any(|n| msg.contains(n));
+    if generated {
+        rep.eval();
+        rep.violation(
+            "C25|compile|reference-scheduled-before-its-state-is-produced",
+            &format!("{}: accepted by the front end, but the generated code uses a state buffer before the producing subgraph declares it: {}", p.prog_id, &msg[..msg.len().min(300)]),
+            json!({"engine": "dx_shape", "prop": "C25", "gen_seed": m.seed, "gen_tier": m.tier, "program": p.prog_id, "dfir": p.text, "compile_only": true, "error": msg}),
+        );
+    } else {
+        rep.count("program_failed_rustc");
+    }
+}
+
 pub fn run(args: &Args, m: &Manifest, reg: &Registry) {
     let mut rep = Reporter::new("C25", args.seed);
     if let Some(case) = args.replay_case() {
         let id = case["program"].as_str().unwrap_or("");
+        if case.get("compile_only").and_then(|x| x.as_bool()).unwrap_or(false) {
+            if let (Some(p), Some(msg)) = (m.c25.iter().find(|p| p.prog_id == id), m.rustc_failed.get(id)) {
+                compile_failure(&mut rep, m, p, msg);
+            }
+            rep.finish("replay", false);
+            return;
+        }
         if let (Some(p), Ok(h)) = (m.c25.iter().find(|p| p.prog_id == id), vcommon::serde_json::from_value::<History>(case["history"].clone())) {
             judge(&mut rep, m, reg, p, &h);
         } else {
@@ -177,8 +202,8 @@ pub fn run(args: &Args, m: &Manifest, reg: &Registry) {
     }
     let n_hist = args.budget(200, 2000, 3);
     for (idx, p) in m.c25.iter().enumerate() {
-        if m.rustc_failed.contains_key(&p.prog_id) {
-            rep.count("program_failed_rustc");
+        if let Some(msg) = m.rustc_failed.get(&p.prog_id) {
+            compile_failure(&mut rep, m, p, msg);
             continue;
         }
         rep.count("programs");
